@@ -1302,6 +1302,8 @@ func (e *Entry) FixChoice() {
 					Prefix: ce.Prefix,
 					Dir:    map[string]*Entry{ce.Name: ce},
 					Extra:  map[string][]interface{}{},
+
+					namespace: ce.namespace,
 				}
 				ce.Parent = ne
 				e.Dir[k] = ne
